@@ -1,5 +1,6 @@
 import TaskModel.Remote.Model
 import TaskModel.Remote.Chain
+import TaskModel.Remote.Tree
 import Driver.Util
 namespace Driver.Remote
 open TaskModel.Remote Driver
@@ -167,11 +168,54 @@ def doChain : List String → Option String
     some (" ; ".intercalate (obs.map fun (res, es) => " ".intercalate (showCResult res :: showEntries es)))
   | _ => none
 
+/-- the tree stream's includes: `k = 9`: URL 1 and URL 3 (siblings); everything else as `incOf` -/
+def incTree (c : Content) (b : Url) : List Url :=
+  if c / 10 = 9 then [⟨1, false⟩, ⟨3, false⟩] else (incOf c b).toList
+
+/-- one tree step = the 13 tokens of a step (node A, its URL's server and answer) + `serverB answerB serverC answerC`
+(URLs 1 and 3) + `pick` (the exit status the binary ended with) + the 3 tokens of `pre` -/
+def parseTEvs : Nat → List String → Option (List TEv)
+  | 0, [] => some []
+  | 0, _ => none
+  | n+1, r => do
+    if r.length < 21 then none else
+    let base ← parseStep (r.take 13)
+    match (r.drop 13).take 5 with
+    | [svB, ansB, svC, ansC, pick] =>
+      let serverB ← parseServerTok svB
+      let answerB ← parseAnswer ansB
+      let serverC ← parseServerTok svC
+      let answerC ← parseAnswer ansC
+      let pick ← pick.toNat?
+      let pre ← parsePre ((r.drop 18).take 3)
+      let rest ← parseTEvs n (r.drop 21)
+      let st : TStep := ⟨base.dt, base.url, base.flags,
+        [(base.url.id, ⟨base.server, base.answer⟩), (1, ⟨serverB, answerB⟩), (3, ⟨serverC, answerC⟩)], pick⟩
+      some (pre.map TEv.pre ++ TEv.step st :: rest)
+    | _ => none
+
+def showTResult (r : TResult) : String :=
+  let ran := "+".intercalate (r.trace.map fun (u, c) => toString c ++ "u" ++ toString u)
+  if r.exit = 0 then (if r.trace.isEmpty then "cleared" else "run:" ++ ran)
+  else if r.trace.isEmpty then "err:" ++ toString r.exit
+  else "err:" ++ toString r.exit ++ "+ran:" ++ ran
+
+/-- `remote.tree <nUrls> <nSteps> <tstep+pre>*` → per step `<result> <entry>{nUrls}` (`Tree.invokeTree`,
+`sha` = identity, `inc` = `incTree`) -/
+def doTree : List String → Option String
+  | k :: n :: r => do
+    let k ← k.toNat?; let n ← n.toNat?
+    let evs ← parseTEvs n r
+    let obs := observeTree false id incTree k RState.init evs
+    some (" ; ".intercalate (obs.map fun (res, es) => " ".intercalate (showTResult res :: showEntries es)))
+  | _ => none
+
 def handle (op : String) (args : List String) : Option String :=
   match op with
   | "remote.run" => doRun false args
   | "remote.legacy" => doRun true args
   | "remote.chain" => doChain args
+  | "remote.tree" => doTree args
   | _ => none
 
 end Driver.Remote
